@@ -38,7 +38,13 @@ impl AsyncRead for Stdin {
             _ => false,
         });
         if failed {
-            return Poll::Ready(Err(io::Error::from_raw_os_error(5)));
+            // EIO mostly; a closed pipe / reset connection behind fd 0 otherwise
+            let e = match simkit::draw(4) {
+                0 => io::Error::new(io::ErrorKind::UnexpectedEof, "stdin: unexpected end of file"),
+                1 => io::Error::from_raw_os_error(104),
+                _ => io::Error::from_raw_os_error(5),
+            };
+            return Poll::Ready(Err(e));
         }
         simkit::with(|s| {
             let rem_buf = buf.remaining();
